@@ -288,6 +288,10 @@ func Leaves(v ssa.Value, opts SliceOpts) []ssa.Value {
 			visit(x.X, depth)
 		case *ssa.Extract:
 			visit(x.Tuple, depth)
+		case *ssa.Next:
+			visit(x.Iter, depth)
+		case *ssa.Range:
+			visit(x.X, depth)
 		case *ssa.Alloc:
 			stores := storesTo(x)
 			if len(stores) == 0 {
